@@ -68,6 +68,32 @@ def run(ctx: Ctx):
     r12_4(ctx)
     from .c11 import accessor_branches
     accessor_branches(ctx, "R12.5", ("SystemGro.__getitem__",))
+    r12_6(ctx)
+    from . import c13
+    c13.r13_6(ctx, rule="R12.6")        # the title line is taken as it is (a blank title is a valid title)
+
+
+def r12_6(ctx: Ctx, rule="R12.6"):
+    """Whether a record has velocities is decided by the number of fields parsed from it, never by their values: a
+    velocity of exactly (0, 0, 0) is a velocity."""
+    init = ctx.func("AtomGro.__init__")
+    none_stores = [s_ for s_ in walk_no_nested(init.node) if isinstance(s_, ast.Assign) and any(attr_chain(t_) == "self.velocity" for t_ in s_.targets)
+                   and isinstance(s_.value, ast.Constant) and s_.value.value is None]
+    if not none_stores:
+        ctx.ob(rule, init, "velocity presence", True, "no branch stores `self.velocity = None`; presence test not decided on this tree",
+               undecided=True, node=init.node)
+        return
+    pm = parents_map(init.node)
+    gs = guards_of(none_stores[0], pm)
+    value_based = [t_ for t_, _ in gs if any(isinstance(x_, ast.Call) and call_name(x_) in ("any", "all", "count_nonzero", "allclose", "isclose", "sum", "norm", "array_equal")
+                                             for x_ in ast.walk(t_))
+                   or any(isinstance(x_, ast.Compare) and any(isinstance(c_, ast.Constant) and isinstance(c_.value, (int, float)) and not isinstance(c_.value, bool)
+                                                              for c_ in x_.comparators) and not any(isinstance(y_, ast.Call) and call_name(y_) == "len" for y_ in ast.walk(x_))
+                          for x_ in ast.walk(t_))]
+    ctx.ob(rule, init, none_stores[0], not value_based,
+           "an atom has no velocity exactly when its record has no velocity fields" + ("" if not value_based else
+           " -- the test `%s` looks at the values: a record whose velocity is exactly zero comes back without velocity" % norm(value_based[0])[:60]),
+           node=none_stores[0])
 
 
 def r12_1(ctx: Ctx):
